@@ -144,67 +144,6 @@ func checkC06(c *Ctx, r *Result, tier string) {
 	r.Extra["reachable_functions"] = len(funcs)
 	r.Floor("C06-reach", len(funcs), 300)
 
-	// reviewed entries are keyed by construct (function, kind, operand expression). A rewrite that
-	// only changes how the operand is spelled (a helper call instead of a local variable) must not
-	// void the entry: when the exact key is gone, an entry is matched by (function, kind, asserted
-	// type) if that is unique among both the entries and the open obligations of the function.
-	normKey := func(site string) string {
-		if i := strings.Index(site, "#slice:"); i >= 0 {
-			// a slice expression is matched by (function, sliced operand): fn#slice:l.input
-			rest := site[i+len("#slice:"):]
-			if j := strings.Index(rest, "["); j > 0 {
-				return site[:i] + "#slice:" + rest[:j]
-			}
-			return ""
-		}
-		i := strings.Index(site, "#assert:")
-		if i < 0 {
-			return ""
-		}
-		j := strings.LastIndex(site, ".(")
-		if j < i {
-			return ""
-		}
-		k := strings.LastIndex(site, "#")
-		if k < j {
-			k = len(site)
-		}
-		return site[:i] + "#assert" + site[j:k]
-	}
-	reviewedByNorm := map[string][]string{}
-	for site := range c06Reviewed {
-		if nk := normKey(site); nk != "" {
-			reviewedByNorm[nk] = append(reviewedByNorm[nk], site)
-		}
-	}
-	// An entry whose function no longer exists (a closure turned into a method, a function renamed)
-	// is adopted by an open obligation of the same kind and the same construct text in the same
-	// package, if that is unique.
-	funcKeys := map[string]bool{}
-	for _, fn := range c.ModFuncs() {
-		funcKeys[c.FuncKey(fn)] = true
-	}
-	orphanByTail := map[string][]string{} // pkg + "#" + construct -> entries
-	tailOf := func(site string) (fn, tail string) {
-		i := strings.Index(site, "#")
-		if i < 0 {
-			return site, ""
-		}
-		return site[:i], site[i:]
-	}
-	pkgOfKey := func(fnKey string) string {
-		if i := strings.Index(fnKey, "."); i >= 0 {
-			return fnKey[:i]
-		}
-		return fnKey
-	}
-	for site := range c06Reviewed {
-		fnKey, tail := tailOf(site)
-		if !funcKeys[fnKey] && tail != "" {
-			k := pkgOfKey(fnKey) + tail
-			orphanByTail[k] = append(orphanByTail[k], site)
-		}
-	}
 	premiseFails := c06Premises(c, oc)
 	r.Extra["reviewed_premises_failing"] = premiseFails
 	perKind := map[string][2]int{}
@@ -213,109 +152,15 @@ func checkC06(c *Ctx, r *Result, tier string) {
 	dump := os.Getenv("ECALCHECK_DUMP") != ""
 	// all obligations first: an entry can be adopted by an obligation in a callee of its function
 	obsByFn := map[*ssa.Function][]Obligation{}
-	allSites := map[string]bool{}
-	fnByKey := map[string]*ssa.Function{}
 	for _, fn := range funcs {
 		obs := oc.enumerate(fn, nil)
 		obs = append(obs, oc.tokenObligations(fn)...)
 		sortObligations(obs)
 		obsByFn[fn] = obs
-		fnByKey[c.FuncKey(fn)] = fn
-		for _, ob := range obs {
-			allSites[ob.Site] = true
-		}
 	}
-	movedAdopted := map[string]bool{}
+	matchReviewed(c, c06Reviewed, funcs, obsByFn)
 	for _, fn := range funcs {
 		obs := obsByFn[fn]
-		openByNorm := map[string]int{}
-		adopted := map[string]bool{}
-		adoptedByNorm := map[string]int{}
-		for _, ob := range obs {
-			if !ob.Discharged && c06Reviewed[ob.Site] == "" {
-				if nk := normKey(ob.Site); nk != "" {
-					openByNorm[nk]++
-				}
-			}
-		}
-		for i := range obs {
-			ob := &obs[i]
-			if ob.Discharged || c06Reviewed[ob.Site] != "" {
-				continue
-			}
-			if fnKey, tail := tailOf(ob.Site); tail != "" {
-				if cands := orphanByTail[pkgOfKey(fnKey)+tail]; len(cands) == 1 && !usedReviewed[cands[0]] {
-					ob.Site = cands[0]
-					continue
-				}
-			}
-			nk := normKey(ob.Site)
-			if nk == "" {
-				continue
-			}
-			// the entries whose exact construct is gone from this function; they must all carry the
-			// same argument (one invariant of one data structure, asserted at several places), and
-			// there must be at least as many of them as open obligations of this shape: merging two
-			// reviewed assertions into one keeps the argument, adding a new assertion does not.
-			var gone []string
-			same := true
-			for _, site := range reviewedByNorm[nk] {
-				if c06Reviewed[site] != c06Reviewed[reviewedByNorm[nk][0]] {
-					same = false
-				}
-				still := false
-				for _, o2 := range obs {
-					if o2.Site == site {
-						still = true
-					}
-				}
-				if !still && !usedReviewed[site] && !adopted[site] {
-					gone = append(gone, site)
-				}
-			}
-			sort.Strings(gone)
-			if len(gone) == 0 && len(reviewedByNorm[nk]) == 0 {
-				// the construct moved into a helper: entries of a function that statically calls this
-				// one, whose construct is gone there, with the same shape (kind and asserted type /
-				// sliced operand) and one common argument, at least as many as open obligations here
-				tailNk := nk[strings.Index(nk, "#"):]
-				var cands []string
-				arg := ""
-				sameArg := true
-				for site := range c06Reviewed {
-					snk := normKey(site)
-					if snk == "" || !strings.HasSuffix(snk, tailNk) || snk[:len(snk)-len(tailNk)] == c.FuncKey(fn) {
-						continue
-					}
-					efn := fnByKey[snk[:len(snk)-len(tailNk)]]
-					if efn == nil || allSites[site] || usedReviewed[site] || movedAdopted[site] {
-						continue
-					}
-					if _, calls := staticCalleesIn(c, efn)[fn]; !calls {
-						continue
-					}
-					if arg == "" {
-						arg = c06Reviewed[site]
-					} else if arg != c06Reviewed[site] {
-						sameArg = false
-					}
-					cands = append(cands, site)
-				}
-				sort.Strings(cands)
-				if sameArg && len(cands) > 0 && openByNorm[nk] <= len(cands)+adoptedByNorm[nk] {
-					ob.Site = cands[0]
-					movedAdopted[cands[0]] = true
-					adoptedByNorm[nk]++
-				}
-				continue
-			}
-			if !same || len(gone) == 0 || openByNorm[nk] > len(gone)+adoptedByNorm[nk] {
-				continue
-			}
-			ob.Site = gone[0]
-			adopted[gone[0]] = true
-			adoptedByNorm[nk]++
-		}
 		for _, ob := range obs {
 			r.Obligations++
 			nObl++
